@@ -244,14 +244,43 @@ def job_rel(tid, src, cfg_a, cfg_b, evm="cancun", scale=1, havoc=True):
     regions = slack_regions(T.compile_full(src, cfg_a, evm)["layout"])
     for name, outs in ((cfg_a, A), (cfg_b, B)):
         discharge(obs, f"paths-exhaustive[{name}]", z3.Or(*[o.pc for o in outs]), hyps=list(env.assumptions), timeout_ms=timeout, replay=replay)
+    compare_pairs(obs, A, B, env, idx, regions, timeout, replay, terms)
+    return number(obs)
+
+
+def _payload_lens(o):
+    return [data_of(o)[0]] + [e[2]["len"] for e in visible(o.world.trace) if e[0] == "log"] + [e[4]["len"] for e in visible(o.world.trace) if e[0] in ("call", "staticcall", "delegatecall")]
+
+
+def compare_pairs(obs, A, B, env, idx, regions, timeout, replay, terms, bound=192):
+    """every feasible pair of paths is observationally equal; the equality is discharged part by part (status/shape, payload
+    lengths, payload bytes - at concrete positions when both payloads are provably short -, each event, final state)"""
+    from vverif.smt import prove
+
+    hyps = list(env.assumptions)
+    short_cache = {}
+
+    def is_short(o):
+        k = id(o)
+        if k not in short_cache:
+            short_cache[k] = all(prove(z3.Implies(o.pc, z3.ULE(l, BV(bound))), hyps, timeout_ms=5000, use_cvc5=False, nl_abstraction=False)["status"] == "proved" for l in _payload_lens(o))
+        return short_cache[k]
+
     for a in A:
         for b in B:
             both = z3.And(a.pc, b.pc)
             if not feasible(both, 2000):
                 continue
-            goal = z3.Implies(both, same_outcome(a, b, idx, regions))
-            discharge(obs, "same-observable-outcome", goal, hyps=list(env.assumptions), timeout_ms=timeout, replay=dict(replay, a=describe(a), b=describe(b)), eval_terms=terms)
-    return number(obs)
+            rp = dict(replay, a=describe(a), b=describe(b))
+            parts = outcome_parts(a, b, idx, regions, bound if (is_short(a) and is_short(b)) else 0)
+            if parts is None:
+                discharge(obs, "same-observable-outcome", z3.Not(both), hyps=hyps, timeout_ms=timeout, replay=rp, eval_terms=terms)
+                continue
+            for nm, f in parts:
+                f = z3.simplify(f)
+                if z3.is_true(f):
+                    continue
+                discharge(obs, "same-observable-outcome:" + nm, z3.Implies(both, f), hyps=hyps, timeout_ms=timeout, replay=rp, eval_terms=terms)
 
 
 def job_rel_evm(tid, src, cfg, evm_a, evm_b, scale=1):
@@ -281,12 +310,7 @@ def job_rel_evm(tid, src, cfg, evm_a, evm_b, scale=1):
     regions = slack_regions(T.compile_full(src, cfg, evm_a)["layout"])
     for name, outs in ((evm_a, A), (evm_b, B)):
         discharge(obs, f"paths-exhaustive[{name}]", z3.Or(*[o.pc for o in outs]), hyps=list(env.assumptions), timeout_ms=timeout, replay=replay)
-    for a in A:
-        for b in B:
-            both = z3.And(a.pc, b.pc)
-            if not feasible(both, 2000):
-                continue
-            discharge(obs, "same-observable-outcome", z3.Implies(both, same_outcome(a, b, idx, regions)), hyps=list(env.assumptions), timeout_ms=timeout, replay=dict(replay, a=describe(a), b=describe(b)), eval_terms=terms)
+    compare_pairs(obs, A, B, env, idx, regions, timeout, replay, terms)
     return number(obs)
 
 
